@@ -758,7 +758,7 @@ Proof.
     - discriminate.
     - cbn. repeat split; reflexivity.
     - cbn. repeat constructor; cbn; intuition discriminate.
-    - intros h Hh. cbn in Hh. repeat (destruct Hh as [<-|Hh]; [cbn; repeat split; try discriminate; reflexivity|]). destruct Hh. }
+    - intros h Hh. cbn in Hh. repeat (destruct Hh as [<-|Hh]; [vm_compute; repeat split; try discriminate; reflexivity|]). destruct Hh. }
   split; [exact HC|]. split; [|split].
   - intros c Hc. cbn in Hc. destruct Hc as [<-|[<-|[]]]; [exists 2%nat| exists 5%nat]; split; reflexivity.
   - cbn. repeat split; intros d Hd; repeat (destruct Hd as [<-|Hd]; [reflexivity|]); destruct Hd.
